@@ -224,5 +224,94 @@ theorem cli_native_not_plugin (s k : Bytes) :
     rw [hnp, hp, h]
     rfl
 
+/-! ## non-vacuity
+
+  Concrete values meeting the hypotheses of every theorem above (those of `valid_name_no_separator` and
+  `bare_name_accepts` are instantiated by the `"yubikey"` example above).  The plugin strings are those
+  of the name "yubi" with the payload 01 02 03: "age1yubi1qypqxy5utrs" and "AGE-PLUGIN-YUBI-1QYPQXPQSYGH";
+  the bare name is "Yubi", which `-j` keeps as it is (it runs "age-plugin-Yubi"). -/
+
+/-- non-vacuity of `constructors_validate` and `constructors_no_separator` (same premises): each of the three
+    constructors does return a value for some input -/
+theorem constructors_validate_nonvacuous :
+    newRecipient [97, 103, 101, 49, 121, 117, 98, 105, 49, 113, 121, 112, 113, 120, 121, 53, 117, 116, 114, 115] =
+      .ok { name := [0x79, 0x75, 0x62, 0x69],
+            encoding := [97, 103, 101, 49, 121, 117, 98, 105, 49, 113, 121, 112, 113, 120, 121, 53, 117, 116, 114,
+              115] } ∧
+    newIdentity [65, 71, 69, 45, 80, 76, 85, 71, 73, 78, 45, 89, 85, 66, 73, 45, 49, 81, 89, 80, 81, 88, 80, 81, 83, 89,
+        71, 72] =
+      .ok { name := [0x79, 0x75, 0x62, 0x69],
+            encoding := [65, 71, 69, 45, 80, 76, 85, 71, 73, 78, 45, 89, 85, 66, 73, 45, 49, 81, 89, 80, 81, 88, 80, 81,
+              83, 89, 71, 72] } ∧
+    newIdentityWithoutData [0x59, 0x75, 0x62, 0x69] =
+      .ok { name := [0x59, 0x75, 0x62, 0x69],
+            encoding := [65, 71, 69, 45, 80, 76, 85, 71, 73, 78, 45, 89, 85, 66, 73, 45, 49, 67, 55, 67, 68, 57,
+              78] } := by decide +kernel
+
+/-- non-vacuity of `constructors_no_separator`: the witness of `constructors_validate_nonvacuous` -/
+theorem constructors_no_separator_nonvacuous :
+    (∃ s c, newRecipient s = .ok c) ∧ (∃ s c, newIdentity s = .ok c) ∧ (∃ n c, newIdentityWithoutData n = .ok c) :=
+  ⟨⟨_, _, constructors_validate_nonvacuous.1⟩, ⟨_, _, constructors_validate_nonvacuous.2.1⟩,
+   ⟨_, _, constructors_validate_nonvacuous.2.2⟩⟩
+
+/-- non-vacuity of `exec_path`: the value `-j Yubi` constructs has a valid name; it runs "age-plugin-Yubi" -/
+theorem exec_path_nonvacuous :
+    validPluginName (Client.mk [0x59, 0x75, 0x62, 0x69]
+      [65, 71, 69, 45, 80, 76, 85, 71, 73, 78, 45, 89, 85, 66, 73, 45, 49, 67, 55, 67, 68, 57, 78]).name = true := by
+  decide
+
+example : openClientCommand (Client.mk [0x59, 0x75, 0x62, 0x69]
+      [65, 71, 69, 45, 80, 76, 85, 71, 73, 78, 45, 89, 85, 66, 73, 45, 49, 67, 55, 67, 68, 57, 78]) =
+    .ok [0x61, 0x67, 0x65, 0x2d, 0x70, 0x6c, 0x75, 0x67, 0x69, 0x6e, 0x2d, 0x59, 0x75, 0x62, 0x69] :=
+  (exec_path _ exec_path_nonvacuous).1
+
+/-- non-vacuity of `exec_refuses_separator`: a value named "../x" (no constructor returns one — see
+    `constructors_no_separator` — so this is the defence in depth of `openClientConnection`) -/
+theorem exec_refuses_separator_nonvacuous :
+    (0x2f : UInt8) ∈ (Client.mk [0x2e, 0x2e, 0x2f, 0x78] []).name := by decide
+
+/-- the other half of the docstring of `exec_refuses_separator` ("the only error"): whenever
+    `openClientCommand` fails, the error is `pathSeparator` and the name contains `/` -/
+theorem exec_error_only_separator (c : Client) (e : Keys.Err) (h : openClientCommand c = .error e) :
+    e = .pathSeparator ∧ (0x2f : UInt8) ∈ c.name := by
+  unfold openClientCommand at h
+  by_cases hc : c.name.contains 0x2f = true
+  · rw [if_pos hc] at h
+    cases h
+    exact ⟨rfl, List.contains_iff_mem.mp hc⟩
+  · rw [if_neg hc] at h; cases h
+
+/-- non-vacuity of `cli_routes`: each of the three routes does produce a plugin value — `-r age1yubi1qypqxy5utrs`,
+    an identity-file line `AGE-PLUGIN-YUBI-1QYPQXPQSYGH`, and `-j Yubi` -/
+theorem cli_routes_nonvacuous :
+    cliParseRecipient [97, 103, 101, 49, 121, 117, 98, 105, 49, 113, 121, 112, 113, 120, 121, 53, 117, 116, 114,
+        115] =
+      .ok (.plugin { name := [0x79, 0x75, 0x62, 0x69],
+                     encoding := [97, 103, 101, 49, 121, 117, 98, 105, 49, 113, 121, 112, 113, 120, 121, 53, 117, 116,
+                       114, 115] }) ∧
+    cliParseIdentity [65, 71, 69, 45, 80, 76, 85, 71, 73, 78, 45, 89, 85, 66, 73, 45, 49, 81, 89, 80, 81, 88, 80, 81, 83,
+        89, 71, 72] =
+      .ok (.plugin { name := [0x79, 0x75, 0x62, 0x69],
+                     encoding := [65, 71, 69, 45, 80, 76, 85, 71, 73, 78, 45, 89, 85, 66, 73, 45, 49, 81, 89, 80, 81, 88,
+                       80, 81, 83, 89, 71, 72] }) ∧
+    cliPluginFlag [0x59, 0x75, 0x62, 0x69] =
+      .ok (.plugin { name := [0x59, 0x75, 0x62, 0x69],
+                     encoding := [65, 71, 69, 45, 80, 76, 85, 71, 73, 78, 45, 89, 85, 66, 73, 45, 49, 67, 55, 67, 68, 57,
+                       78] }) := by decide +kernel
+
+/-- non-vacuity of `cli_native_not_plugin`: the native strings of the key 0x42…42
+    ("age1gfpyysjz…gfpqxkm8f4", "AGE-SECRET-KEY-1GFPYYSJZ…GFPQ4EGAEX") are accepted by the native parsers -/
+theorem cli_native_not_plugin_nonvacuous :
+    parseX25519Recipient
+      [97, 103, 101, 49, 103, 102, 112, 121, 121, 115, 106, 122, 103, 102, 112, 121, 121, 115, 106, 122, 103, 102, 112,
+       121, 121, 115, 106, 122, 103, 102, 112, 121, 121, 115, 106, 122, 103, 102, 112, 121, 121, 115, 106, 122, 103,
+       102, 112, 121, 121, 115, 106, 122, 103, 102, 112, 113, 120, 107, 109, 56, 102, 52] =
+      .ok (List.replicate 32 0x42) ∧
+    parseX25519Identity
+      [65, 71, 69, 45, 83, 69, 67, 82, 69, 84, 45, 75, 69, 89, 45, 49, 71, 70, 80, 89, 89, 83, 74, 90, 71, 70, 80, 89,
+       89, 83, 74, 90, 71, 70, 80, 89, 89, 83, 74, 90, 71, 70, 80, 89, 89, 83, 74, 90, 71, 70, 80, 89, 89, 83, 74, 90,
+       71, 70, 80, 89, 89, 83, 74, 90, 71, 70, 80, 81, 52, 69, 71, 65, 69, 88] =
+      .ok (List.replicate 32 0x42) := by decide +kernel
+
 end Props.C17
 end AgeModel
